@@ -3,7 +3,7 @@ PROPERTIES = ['C08']
 ENGINE = 'verus'
 CLASS = 'U'
 AUTO_HELPERS = True
-DOC = ('the ORDER BY comparator (closure #0 of apply_order_by, lifted mechanically): lexicographic over the key list, NULLs after every '
+DOC = ('the ORDER BY comparators (closure #0 of apply_order_by and closure #0 of apply_order_by_to_aggregates - ORDER BY after aggregation -, lifted mechanically): lexicographic over the key list, NULLs after every '
        'non-NULL for ASC and DESC, DESC reverses only non-NULL comparisons; given a total preorder on values it is a total preorder')
 
 TEMPLATE = r'''
@@ -59,6 +59,8 @@ pub open spec fn lex(ka: Seq<(SqlValue, OrderDirection)>, kb: Seq<(SqlValue, Ord
 //@@auto-helpers
 
 //@@ comparison_fn
+
+//@@ agg_comparison_fn
 
 // ---------------- consequences over the contract: a total preorder, given that compare_sql_values is one ----------------
 pub open spec fn val_total_preorder() -> bool {
@@ -126,10 +128,39 @@ ITEMS = {
     ensures r == lex(keys_a.unwrap()@, keys_b.unwrap()@, 0),
 ''',
     ),
+
+    # the comparator of apply_order_by_to_aggregates (ORDER BY after GROUP BY / aggregation): same specification
+    'agg_comparison_fn': dict(
+        file='crates/vibesql-executor/src/select/executor/aggregation/evaluation/mod.rs',
+        path="impl SelectExecutor<'_>::fn apply_order_by_to_aggregates",
+        fragment=dict(kind='closure', index=0, expect_params='(_, keys_a), (_, keys_b)',
+                      sig='#[verifier::loop_isolation(false)]\nfn agg_comparison_fn(keys_a: &Vec<(SqlValue, OrderDirection)>, keys_b: &Vec<(SqlValue, OrderDirection)>) -> Ordering'),
+        ret='r',
+        rewrites=GLOBAL_REWRITES + [
+            ('re', r'use crate::select::grouping::compare_sql_values;', '', None),
+            ('re', r'std::cmp::Ordering', 'Ordering', None),
+            ('lit', 'for ((val_a, dir), (val_b, _)) in keys_a.iter().zip(keys_b.iter()) {',
+             'let n = if keys_a.len() < keys_b.len() { keys_a.len() } else { keys_b.len() };\n'
+             '        for i in 0..n {\n'
+             '            let (val_a, dir) = (&keys_a[i].0, &keys_a[i].1);\n'
+             '            let val_b = &keys_b[i].0;', 1),
+        ],
+        proofs=[('@loop0',
+                 'proof { assert(lex(keys_a@, keys_b@, i as int) == (if key_cmp(keys_a@[i as int].0, keys_a@[i as int].1, keys_b@[i as int].0) != Ordering::Equal { key_cmp(keys_a@[i as int].0, keys_a@[i as int].1, keys_b@[i as int].0) } else { lex(keys_a@, keys_b@, i as int + 1) })); }')],
+        loops={0: '''
+            invariant
+                n == minlen(keys_a@, keys_b@),
+                lex(keys_a@, keys_b@, 0) == lex(keys_a@, keys_b@, i as int),
+'''},
+        contract='''
+    ensures r == lex(keys_a@, keys_b@, 0),
+''',
+    ),
 }
 
 OBLIGATIONS = {
     'comparison_fn': ['post:lexicographic_nulls_last_asc_desc', 'safety:no_panic_index_in_bounds_unwrap_ok', 'proof:loop_invariant'],
+    'agg_comparison_fn': ['post:lexicographic_nulls_last_asc_desc_after_aggregation', 'safety:no_panic_index_in_bounds', 'proof:loop_invariant'],
     'lemma_key_cmp_antisymmetric': ['post:key_comparison_antisymmetric'],
     'lemma_lex_antisymmetric': ['post:comparator_antisymmetric'],
 }
